@@ -343,6 +343,9 @@ Section Load.
     specialize (H x Hx C1). destruct (listing_of E (snd x)); [discriminate | now apply H].
   Qed.
 
+  Lemma ok_not_blocked s i : ok i -> blocked E s i = false.
+  Proof. intros H. unfold blocked. rewrite ok_no_fail by assumption. apply andb_false_r. Qed.
+
   (* a loadable entry of the result was an unselected loadable entry of the source *)
   Lemma loadable_after s i y : ok i -> In y (load_where E s i) -> loadable E y = true ->
     In y i /\ s y = false.
